@@ -188,18 +188,47 @@ def gots : List (Op × Res) → List Msg
   | (_, .got m) :: h => m :: gots h
   | _ :: h => gots h
 
-/-- the order in which the sync-relevant events of `Send` / `Close` happen in this model;
-`Generated.C09ChanLocks` must show the same sequences in the source. -/
-def sendProtocol : List String :=
-  ["mu.RLock", "defer mu.RUnlock", "closed.Load", "return", "yield send:checked",
-   "select{", "send channel", "return", "recv done", "return", "}"]
+/-! ### the protocol as a sequence of source events
 
-def closeProtocol : List String :=
-  ["closed.CompareAndSwap", "return", "yield close:flagged", "close done", "yield close:signalled",
-   "mu.Lock", "close channel", "mu.Unlock"]
+`extract/c09` lists, for each method of `Channel` in `std/channel/channel.go`, the sync-relevant
+events in source order (`Generated.C09ChanLocks`); `C09_locks_match_model` requires them to be
+exactly the sequences this model's steps stand for. -/
 
-def receiveProtocol : List String := ["return", "recv channel", "return"]
+inductive Ev
+  | rlock | deferRUnlock | runlock | lock | unlock | deferUnlock
+  | loadFlag | casFlag | storeFlag | readFlagPlain | writeFlagPlain
+  | closeDone | closeChan | sendChan | recvChan | recvDone | makeChan | makeDone
+  | selectBegin | selectEnd | ret
+  | yieldSendChecked | yieldCloseFlagged | yieldCloseSignalled | yieldOther
+  | callClose | callSend | callReceive | goStmt | other
+deriving DecidableEq, Repr
 
-def isClosedProtocol : List String := ["closed.Load", "return"]
+inductive FieldTy | rwMutex | mutex | atomicBool | bool | chanStruct | chanValue | missing | other
+deriving DecidableEq, Repr
+
+open Ev in
+/-- `Send`: shared lock held (deferred unlock) from before the flag read to after the select;
+yield point between the flag read and the select; the select offers exactly `channel <- v` and `<-done` -/
+def sendProtocol : List Ev :=
+  [rlock, deferRUnlock, loadFlag, ret, yieldSendChecked, selectBegin, sendChan, ret, recvDone, ret, selectEnd]
+
+open Ev in
+/-- `Close`: CAS on the flag, `close(done)`, then `close(channel)` inside the exclusive lock -/
+def closeProtocol : List Ev :=
+  [casFlag, ret, yieldCloseFlagged, closeDone, yieldCloseSignalled, lock, closeChan, unlock]
+
+open Ev in
+def receiveProtocol : List Ev := [ret, recvChan, ret]
+
+open Ev in
+def isClosedProtocol : List Ev := [loadFlag, ret]
+
+open Ev in
+/-- `Construct` (not part of the modelled alphabet: it runs before the channel is shared) closes a
+previous channel through `Close` and installs the new one under the exclusive lock -/
+def constructProtocol : List Ev := [callClose, lock, makeChan, makeDone, storeFlag, unlock]
+
+/-- field types the model's primitives stand for: mu, closed, done, channel -/
+def fieldProtocol : List FieldTy := [.rwMutex, .atomicBool, .chanStruct, .chanValue]
 
 end Model.Chan
